@@ -72,6 +72,8 @@ int main (int argc, char **argv)
 #ifdef SC_ENABLE_MPI
   if (sc_MPI_Init (&argc, &argv) != sc_MPI_SUCCESS) return 4;
 #endif
+  /* the scenarios come from a file (argument): mpirun's forwarding of a long stdin is not reliable */
+  if (argc > 1 && freopen (argv[1], "r", stdin) == NULL) return 5;
   sc_set_log_defaults (stderr, capture, SC_LP_ESSENTIAL);
   while (getline (&line, &cap, stdin) > 0) {
     char *save = NULL, *opx;
